@@ -29,13 +29,18 @@ AppRoot(v) == AppHash(Infos(v))
 HonestW(v, s, k) == HonestWitness(StoreTree(v, s), s, Infos(v), k)
 Claim(v, s, k)   == TrueClaim(StoreTree(v, s), s, AppRoot(v), k)
 
+\* Everything about one query "/1/key" for key k at height v, computed once:
+\* the tree, the honest witness, the true claim, the app hashes of all retained versions.
+Query(v, k) == [v |-> v, k |-> k, t |-> saved[v], w |-> HonestW(v, 1, k), c |-> Claim(v, 1, k),
+                roots |-> [u \in versions |-> AppRoot(u)]]
+
 \* a claim is true if it states what some retained version holds, against that version's app hash
-ClaimTrue(c) ==
-    \E v \in versions : c.root = AppRoot(v) /\ c.store \in {1, 2} /\ c = Claim(v, c.store, c.key)
+ClaimTrue(q, c) ==
+    \E u \in DOMAIN q.roots : c.root = q.roots[u] /\ c.store \in {1, 2} /\ c = Claim(u, c.store, c.key)
 \* the pair is exactly what an honest node answers for a true claim
-Honest(w, c) ==
-    \E v \in versions : c.root = AppRoot(v) /\ c.store \in {1, 2}
-                        /\ c = Claim(v, c.store, c.key) /\ w = HonestW(v, c.store, c.key)
+Honest(q, w, c) ==
+    \E u \in DOMAIN q.roots : c.root = q.roots[u] /\ c.store \in {1, 2}
+                              /\ c = Claim(u, c.store, c.key) /\ w = HonestW(u, c.store, c.key)
 
 -----------------------------------------------------------------------------
 \* Mutations.  m = [c (class), p (0 = LeftPath, j = InnerNodes[j]), i (index), x (parameter)]
@@ -46,15 +51,14 @@ SetPath(pr, p, q) == IF p = 0 THEN [pr EXCEPT !.lp = q] ELSE [pr EXCEPT !.inn[p]
 DropAt(s, i)     == SubSeq(s, 1, i - 1) \o SubSeq(s, i + 1, Len(s))
 DupAt(s, i)      == SubSeq(s, 1, i) \o SubSeq(s, i, Len(s))
 SwapAt(s, i)     == [j \in 1..Len(s) |-> IF j = i THEN s[i + 1] ELSE IF j = i + 1 THEN s[i] ELSE s[j]]
+Deepest(S)       == CHOOSE i \in S : \A j \in S : j <= i
 
-\* the "skip" attack: claim that the PRESENT key k is absent, showing its predecessor
-\* and a later key `far` with far's genuine path inside the right sibling
+\* the "skip" forgery: claim that the PRESENT key k is absent, showing its predecessor and
+\* a later key `far` together with far's genuine path inside the predecessor's right sibling
 SkipProof(t, k, far) ==
-    LET pred == Neighbours(t, k)[1]
-        P == GetWithProof(t, pred)
+    LET P == GetWithProof(t, Neighbours(t, k)[1])
         S == GetWithProof(t, far)
-        turns == {i \in 1..Len(P.lp) : P.lp[i].right # NOHASH}
-        d == CHOOSE i \in turns : \A j \in turns : j <= i
+        d == Deepest({i \in 1..Len(P.lp) : P.lp[i].right # NOHASH})
     IN [nil |-> FALSE, lp |-> P.lp, inn |-> <<SubSeq(S.lp, d + 1, Len(S.lp))>>, lv |-> <<P.lv[1], S.lv[1]>>]
 SkipPossible(t, k, far) ==
     /\ k \in KeysOf(t) /\ far \in KeysOf(t) /\ far > k /\ Neighbours(t, k)[1] # 0
@@ -62,46 +66,47 @@ SkipPossible(t, k, far) ==
            S == GetWithProof(t, far)
            turns == {i \in 1..Len(P.lp) : P.lp[i].right # NOHASH}
        IN /\ turns # {}
-          /\ LET d == CHOOSE i \in turns : \A j \in turns : j <= i
-             IN /\ Len(S.lp) >= d /\ S.lp[d].left # NOHASH
-                /\ \A j \in 1..(d - 1) : (S.lp[j].left = NOHASH) = (P.lp[j].left = NOHASH)
+          /\ Len(S.lp) >= Deepest(turns) /\ S.lp[Deepest(turns)].left # NOHASH
+          /\ \A j \in 1..(Deepest(turns) - 1) : (S.lp[j].left = NOHASH) = (P.lp[j].left = NOHASH)
 
-Mutations(v, k) ==
-    LET t  == saved[v]
-        w  == HonestW(v, 1, k)
-        c  == Claim(v, 1, k)
-        pr == w.proof
+Mutations(q) ==
+    LET pr == q.w.proof
         paths == IF pr.nil THEN {} ELSE 0..Len(pr.inn)
-        sites == {<<p, i>> \in paths \X (1..NK) : i <= Len(PathOf(pr, p))}
+        sites == {s \in paths \X (1..NK) : s[2] <= Len(PathOf(pr, s[1]))}
     IN  {M("none", 0, 0, 0)}
         \* --- the claim being verified
-        \cup {M("key", 0, 0, x) : x \in KeyS \ {k}}            \* other key (op key follows)
-        \cup {M("claimkey", 0, 0, x) : x \in KeyS \ {k}}       \* other key (op key unchanged)
-        \cup {M("value", 0, 0, x) : x \in IF c.kind = 1 THEN (1..BADVAL) \ {c.val} ELSE {}}
+        \cup {M("key", 0, 0, x) : x \in KeyS \ {q.k}}          \* other key (the op key follows)
+        \cup {M("claimkey", 0, 0, x) : x \in KeyS \ {q.k}}     \* other key (the op key stays)
+        \cup {M("value", 0, 0, x) : x \in IF q.c.kind = 1 THEN (1..BADVAL) \ {q.c.val} ELSE {}}
         \cup {M("kind", 0, 0, 0), M("optype", 0, 0, 0), M("kind_optype", 0, 0, 0)}
-        \cup {M("root", 0, 0, x) : x \in {0} \cup (versions \ {v})}
+        \cup {M("root", 0, 0, x) : x \in {0} \cup (versions \ {q.v})}
         \cup {M("store", 0, 0, x) : x \in {2, NOSTORE}}
         \cup {M("claimstore", 0, 0, 2), M("mskey", 0, 0, 2)}
         \* --- proof inner nodes
         \cup {M(cl, s[1], s[2], x) : cl \in {"pin_h", "pin_s", "pin_ver"}, s \in sites, x \in {-1, 1}}
         \cup {M(cl, s[1], s[2], x) : cl \in {"pin_left", "pin_right"}, s \in sites, x \in {1, 2}}
-        \cup {M("pin_left", s[1], s[2], 0) : s \in {q \in sites : PathOf(pr, q[1])[q[2]].left # NOHASH}}
-        \cup {M("pin_right", s[1], s[2], 0) : s \in {q \in sites : PathOf(pr, q[1])[q[2]].right # NOHASH}}
+        \cup {M("pin_left", s[1], s[2], 0) : s \in {z \in sites : PathOf(pr, z[1])[z[2]].left # NOHASH}}
+        \cup {M("pin_right", s[1], s[2], 0) : s \in {z \in sites : PathOf(pr, z[1])[z[2]].right # NOHASH}}
         \cup {M(cl, s[1], s[2], 0) : cl \in {"path_drop", "path_dup"}, s \in sites}
-        \cup {M("path_swap", s[1], s[2], 0) : s \in {q \in sites : q[2] < Len(PathOf(pr, q[1]))}}
+        \cup {M("path_swap", s[1], s[2], 0) : s \in {z \in sites : z[2] < Len(PathOf(pr, z[1]))}}
         \* --- proof leaves / structure
         \cup UNION {{M("leaf_key", 0, j, x) : x \in KeyS \ {pr.lv[j].key}} : j \in 1..Len(pr.lv)}
-        \cup {M(cl, 0, j, x) : cl \in {"leaf_ver"}, j \in 1..Len(pr.lv), x \in {-1, 1}}
+        \cup {M("leaf_ver", 0, j, x) : j \in 1..Len(pr.lv), x \in {-1, 1}}
         \cup {M(cl, 0, j, 0) : cl \in {"leaf_vh", "leaf_drop", "leaf_dup"}, j \in 1..Len(pr.lv)}
         \cup (IF Len(pr.lv) = 2 THEN {M("leaf_swap", 0, 0, 0), M("inn_drop", 0, 0, 0)} ELSE {})
         \cup (IF pr.nil THEN {} ELSE {M("proof_nil", 0, 0, 0)})
         \* --- forgeries
         \cup {M("graft", 0, i, x) : i \in {j \in 1..Len(pr.lp) : Len(pr.lv) = 1 /\ pr.lp[j].left # NOHASH},
                                      x \in KeyS}
-        \cup {M("skip", 0, 0, x) : x \in {f \in KeyS : SkipPossible(t, k, f)}}
+        \cup {M("skip", 0, 0, x) : x \in {f \in KeyS : SkipPossible(q.t, q.k, f)}}
         \* --- multistore operator
         \cup {M(cl, 0, 0, x) : cl \in {"ms_hash", "ms_name", "ms_drop", "ms_ver"}, x \in {1, 2}}
         \cup {M("ms_dup", 0, 0, 0)}
+
+\* the newest version gets every mutation; older retained versions the claim-level ones
+\* (their witnesses have the same structure as some newest-version witness of another state)
+OldVersionClasses == {"none", "key", "value", "kind", "root", "store"}
+MutationsFor(q) == IF q.v = latest THEN Mutations(q) ELSE {m \in Mutations(q) : m.c \in OldVersionClasses}
 
 \* classes whose alteration the property does not name (the store version in a store
 \* info is carried along but not hashed): reported, never judged
@@ -114,13 +119,12 @@ MutPin(pin, m, t) ==
       [] m.c = "pin_left"  -> [pin EXCEPT !.left  = IF m.x = 0 THEN NOHASH ELSE IF m.x = 1 THEN JUNK ELSE RootHash(t)]
       [] m.c = "pin_right" -> [pin EXCEPT !.right = IF m.x = 0 THEN NOHASH ELSE IF m.x = 1 THEN JUNK ELSE RootHash(t)]
 
-\* the mutated [w, c]
-Apply(v, k, m) ==
-    LET t  == saved[v]
-        w  == HonestW(v, 1, k)
-        c  == Claim(v, 1, k)
+\* the mutated pair [w, c]
+Apply(q, m) ==
+    LET w  == q.w
+        c  == q.c
         pr == w.proof
-        q  == PathOf(pr, m.p)
+        pth == PathOf(pr, m.p)
         flipK == 3 - c.kind
     IN CASE m.c = "none"        -> [w |-> w, c |-> c]
          [] m.c = "key"         -> [w |-> [w EXCEPT !.opkey = m.x], c |-> [c EXCEPT !.key = m.x]]
@@ -130,15 +134,15 @@ Apply(v, k, m) ==
          [] m.c = "optype"      -> [w |-> [w EXCEPT !.typ = 3 - @], c |-> c]
          [] m.c = "kind_optype" -> [w |-> [w EXCEPT !.typ = 3 - @],
                                     c |-> [c EXCEPT !.kind = flipK, !.val = IF flipK = 1 THEN 1 ELSE 0]]
-         [] m.c = "root"        -> [w |-> w, c |-> [c EXCEPT !.root = IF m.x = 0 THEN JUNK ELSE AppRoot(m.x)]]
+         [] m.c = "root"        -> [w |-> w, c |-> [c EXCEPT !.root = IF m.x = 0 THEN JUNK ELSE q.roots[m.x]]]
          [] m.c = "store"       -> [w |-> [w EXCEPT !.mskey = m.x], c |-> [c EXCEPT !.store = m.x]]
          [] m.c = "claimstore"  -> [w |-> w, c |-> [c EXCEPT !.store = m.x]]
          [] m.c = "mskey"       -> [w |-> [w EXCEPT !.mskey = m.x], c |-> c]
          [] m.c \in {"pin_h", "pin_s", "pin_ver", "pin_left", "pin_right"} ->
-               [w |-> [w EXCEPT !.proof = SetPath(pr, m.p, [q EXCEPT ![m.i] = MutPin(@, m, t)])], c |-> c]
-         [] m.c = "path_drop"   -> [w |-> [w EXCEPT !.proof = SetPath(pr, m.p, DropAt(q, m.i))], c |-> c]
-         [] m.c = "path_dup"    -> [w |-> [w EXCEPT !.proof = SetPath(pr, m.p, DupAt(q, m.i))], c |-> c]
-         [] m.c = "path_swap"   -> [w |-> [w EXCEPT !.proof = SetPath(pr, m.p, SwapAt(q, m.i))], c |-> c]
+               [w |-> [w EXCEPT !.proof = SetPath(pr, m.p, [pth EXCEPT ![m.i] = MutPin(@, m, q.t)])], c |-> c]
+         [] m.c = "path_drop"   -> [w |-> [w EXCEPT !.proof = SetPath(pr, m.p, DropAt(pth, m.i))], c |-> c]
+         [] m.c = "path_dup"    -> [w |-> [w EXCEPT !.proof = SetPath(pr, m.p, DupAt(pth, m.i))], c |-> c]
+         [] m.c = "path_swap"   -> [w |-> [w EXCEPT !.proof = SetPath(pr, m.p, SwapAt(pth, m.i))], c |-> c]
          [] m.c = "leaf_key"    -> [w |-> [w EXCEPT !.proof.lv[m.i].key = m.x], c |-> c]
          [] m.c = "leaf_ver"    -> [w |-> [w EXCEPT !.proof.lv[m.i].ver = @ + m.x], c |-> c]
          [] m.c = "leaf_vh"     -> [w |-> [w EXCEPT !.proof.lv[m.i].vh = @ + 100], c |-> c]
@@ -147,42 +151,42 @@ Apply(v, k, m) ==
          [] m.c = "leaf_swap"   -> [w |-> [w EXCEPT !.proof.lv = SwapAt(@, 1)], c |-> c]
          [] m.c = "inn_drop"    -> [w |-> [w EXCEPT !.proof.inn = <<>>], c |-> c]
          [] m.c = "proof_nil"   -> [w |-> [w EXCEPT !.proof = NilProof], c |-> c]
-         [] m.c = "graft"       ->
-               LET forged == [key |-> m.x, vh |-> VH(BADVAL), ver |-> 1]
-               IN [w |-> [w EXCEPT !.typ = 1, !.opkey = m.x,
-                                   !.proof.lp[m.i].right = LeafHash(forged.key, forged.vh, forged.ver),
-                                   !.proof.inn = << <<>> >>, !.proof.lv = Append(@, forged)],
-                   c |-> [c EXCEPT !.key = m.x, !.kind = 1, !.val = BADVAL]]
-         [] m.c = "skip"        -> [w |-> [w EXCEPT !.typ = 2, !.proof = SkipProof(t, k, m.x)],
+         [] m.c = "graft"       ->      \* forged leaf (key x, BADVAL) hung below path node i
+               [w |-> [w EXCEPT !.typ = 1, !.opkey = m.x,
+                                !.proof.lp[m.i].right = LeafHash(m.x, VH(BADVAL), 1),
+                                !.proof.inn = << <<>> >>,
+                                !.proof.lv = Append(@, [key |-> m.x, vh |-> VH(BADVAL), ver |-> 1])],
+                c |-> [c EXCEPT !.key = m.x, !.kind = 1, !.val = BADVAL]]
+         [] m.c = "skip"        -> [w |-> [w EXCEPT !.typ = 2, !.proof = SkipProof(q.t, q.k, m.x)],
                                     c |-> [c EXCEPT !.kind = 2, !.val = 0]]
          [] m.c = "ms_hash"     -> [w |-> [w EXCEPT !.infos[m.x].hash = JUNK], c |-> c]
          [] m.c = "ms_name"     -> [w |-> [w EXCEPT !.infos[m.x].name = NOSTORE], c |-> c]
          [] m.c = "ms_ver"      -> [w |-> [w EXCEPT !.infos[m.x].ver = @ + 1], c |-> c]
          [] m.c = "ms_drop"     -> [w |-> [w EXCEPT !.infos = DropAt(@, m.x)], c |-> c]
-         [] m.c = "ms_dup"      ->
-               LET fake == [nil |-> FALSE, lp |-> <<>>, inn |-> <<>>,
-                            lv |-> <<[key |-> k, vh |-> VH(BADVAL), ver |-> 1]>>]
-               IN [w |-> [w EXCEPT !.typ = 1, !.proof = fake,
-                                   !.infos = <<[name |-> 1, hash |-> LeafHash(k, VH(BADVAL), 1), ver |-> v]>> \o @],
-                   c |-> [c EXCEPT !.kind = 1, !.val = BADVAL]]
+         [] m.c = "ms_dup"      ->      \* a made-up one-leaf store (k, BADVAL), named like store 1, put first
+               [w |-> [w EXCEPT !.typ = 1,
+                                !.proof = [nil |-> FALSE, lp |-> <<>>, inn |-> <<>>,
+                                           lv |-> <<[key |-> q.k, vh |-> VH(BADVAL), ver |-> 1]>>],
+                                !.infos = <<[name |-> 1, hash |-> LeafHash(q.k, VH(BADVAL), 1), ver |-> q.v]>> \o @],
+                c |-> [c EXCEPT !.kind = 1, !.val = BADVAL]]
 
-Accepts(v, k, m) == LET a == Apply(v, k, m) IN Verify(a.w, a.c)
-
-\* What C05 demands of the verifier for the mutated pair: 1 = must accept, 0 = must reject,
-\* 2 = not constrained.
+\* What C05 demands of the verifier for the mutated pair a: 1 = must accept, 0 = must
+\* reject, 2 = not constrained.
 \*   - the pair the honest node returned, unchanged: accept (completeness);
 \*   - a false claim, whatever the witness: reject (soundness);
-\*   - the true claim with an altered witness: reject ("any altered proof node ... fails");
+\*   - the queried (true) claim with an altered witness: reject ("any altered proof node fails");
 \*   - another true claim: accept if the pair is again the honest answer for it, else free
 \*     (e.g. the absence witness for k also proves the absence of other keys in the same gap).
-Demands(v, k, m) ==
-    LET a == Apply(v, k, m)
-        w == HonestW(v, 1, k)
-        c == Claim(v, 1, k)
-    IN IF a.w = w /\ a.c = c THEN 1
-       ELSE IF ~ClaimTrue(a.c) THEN 0
-       ELSE IF a.c = c THEN 0
-       ELSE IF Honest(a.w, a.c) THEN 1 ELSE 2
+Demands(q, a) ==
+    IF a.w = q.w /\ a.c = q.c THEN 1
+    ELSE IF ~ClaimTrue(q, a.c) THEN 0
+    ELSE IF a.c = q.c THEN 0
+    ELSE IF Honest(q, a.w, a.c) THEN 1 ELSE 2
+
+\* [exp: what the property demands, asis: what the verifier (as modelled) answers]
+Verdicts(q, m) ==
+    LET a == Apply(q, m)
+    IN [exp |-> IF Neutral(m) THEN 2 ELSE Demands(q, a), asis |-> B(Verify(a.w, a.c))]
 
 -----------------------------------------------------------------------------
 \* The query, as a history entry for the harness.
@@ -195,21 +199,20 @@ ProofShape(pr) == [nil |-> B(pr.nil), lp |-> PathShape(pr.lp),
                    inn |-> [j \in 1..Len(pr.inn) |-> PathShape(pr.inn[j])],
                    lv |-> [j \in 1..Len(pr.lv) |-> <<pr.lv[j].key, pr.lv[j].ver>>]]
 
-MutSeq(v, k) == SetAsSeq(Mutations(v, k))
-Cases(v, k)  == LET ms == MutSeq(v, k)
-                IN [i \in 1..Len(ms) |->
-                      [m |-> ms[i],
-                       exp  |-> IF Neutral(ms[i]) THEN 2 ELSE Demands(v, k, ms[i]),
-                       asis |-> B(Accepts(v, k, ms[i]))]]
+Cases(q) == LET ms == SetAsSeq(MutationsFor(q))
+            IN [i \in 1..Len(ms) |-> LET r == Verdicts(q, ms[i])
+                                     IN [m |-> ms[i], exp |-> r.exp, asis |-> r.asis]]
 
+\* (queries are answered from committed versions only, so they are generated in the states
+\* right after a commit; the uncommitted working tree plays no part)
 Prove(v, k) ==
     /\ v \in versions
+    /\ working = saved[latest]
     /\ UNCHANGED <<working, saved, versions, latest>>
-    /\ LET c == Claim(v, 1, k) IN
-       /\ ret' = <<c.kind, c.val>>
-       /\ hist' = Rec([op |-> "Prove", ver |-> v, k |-> k, kind |-> c.kind, val |-> c.val,
-                       nbr |-> Neighbours(saved[v], k), shape |-> ProofShape(HonestW(v, 1, k).proof),
-                       cases |-> Cases(v, k)])
+    /\ LET q == Query(v, k) IN
+       /\ ret' = <<q.c.kind, q.c.val>>
+       /\ hist' = Rec([op |-> "Prove", ver |-> v, k |-> k, kind |-> q.c.kind, val |-> q.c.val,
+                       nbr |-> Neighbours(q.t, k), shape |-> ProofShape(q.w.proof), cases |-> Cases(q)])
 
 ProofNext ==
     \/ \E k \in KeyS, v \in ValS : Set(k, v)
@@ -220,13 +223,19 @@ ProofNext ==
 -----------------------------------------------------------------------------
 \* C05 on the design level
 
+\* (evaluated in the states right after a commit: saved versions do not change in between)
+Clean          == latest > 0 /\ working = saved[latest]
+Queries        == IF Clean THEN {Query(v, k) : v \in versions, k \in KeyS} ELSE {}
+
 \* every query on a retained version yields a witness that verifies; existence iff present,
 \* and an absence witness shows exactly the adjacent keys
 C05_Completeness ==
-    \A v \in versions, k \in KeyS :
-        LET w == HonestW(v, 1, k)
-            c == Claim(v, 1, k)
-            n == Neighbours(saved[v], k)
+    \A q \in Queries :
+        LET w == q.w
+            c == q.c
+            v == q.v
+            k == q.k
+            n == Neighbours(q.t, q.k)
         IN /\ Verify(w, c)
            /\ (w.typ = 1) = (k \in KeysOf(saved[v]))
            /\ w.typ = 1 => Len(w.proof.lv) = 1 /\ w.proof.lv[1].key = k /\ w.proof.lv[1].vh = VH(c.val)
@@ -236,24 +245,33 @@ C05_Completeness ==
 
 \* the forgeries the code as it is accepts (see known_findings.json); each is closed by
 \* the corresponding Reject* / Require* check
-Known_C05_both_children(v, k, m) ==        \* right hash of a node that hashes its left hash
+Known_C05_both_children(q, m) ==           \* right hash of a node that hashes its left hash
     ~RejectBothChildren /\
     \/ m.c = "graft"
-    \/ m.c = "pin_right" /\ m.x # 0 /\ PathOf(HonestW(v, 1, k).proof, m.p)[m.i].left # NOHASH
-Known_C05_skip(v, k, m)      == ~RequireLeftmostInner /\ m.c = "skip"
-Known_C05_dup_store(v, k, m) == ~RejectDuplicateStore /\ m.c = "ms_dup"
-Known(v, k, m) == Known_C05_both_children(v, k, m) \/ Known_C05_skip(v, k, m) \/ Known_C05_dup_store(v, k, m)
+    \/ /\ m.c = "pin_right" /\ m.x # 0 /\ m.p = 0 /\ q.w.proof.lp[m.i].left # NOHASH
+       \* ... provided the verifier never gets to look at it: there is no second leaf, or the
+       \* node lies above the turn that the second leaf hangs from
+       /\ \/ Len(q.w.proof.lv) = 1 /\ q.w.typ = 1      \* (a lone absence leaf must be rightmost)
+          \/ Len(q.w.proof.lv) = 2 /\ m.i < Deepest({i \in 1..Len(q.w.proof.lp) : q.w.proof.lp[i].right # NOHASH})
+Known_C05_skip(q, m)      == ~RequireLeftmostInner /\ m.c = "skip"
+Known_C05_dup_store(q, m) == ~RejectDuplicateStore /\ m.c = "ms_dup"
+Known(q, m) == Known_C05_both_children(q, m) \/ Known_C05_skip(q, m) \/ Known_C05_dup_store(q, m)
+
+\* per query and mutation: is the modelled verifier's verdict wrong?
+Judge(q, m) ==
+    LET r == Verdicts(q, m)
+    IN [unsound     |-> ~Known(q, m) /\ r.exp = 0 /\ r.asis = 1,
+        falseReject |-> r.exp = 1 /\ r.asis = 0,
+        stale       |-> Known(q, m) /\ m.c # "graft" /\ r.asis = 0]
 
 \* no false claim and no altered witness of the queried claim is accepted
-C05_Soundness ==
-    \A v \in versions, k \in KeyS : \A m \in Mutations(v, k) :
-        Neutral(m) \/ Known(v, k, m) \/ (Demands(v, k, m) = 0 => ~Accepts(v, k, m))
-\* ... and honest answers are accepted (including mutations that land on one)
-C05_NoFalseReject ==
-    \A v \in versions, k \in KeyS : \A m \in Mutations(v, k) :
-        Neutral(m) \/ (Demands(v, k, m) = 1 => Accepts(v, k, m))
-\* the known forgeries are real in the model of the code as it is (so the list is not stale)
-C05_KnownAreAccepted ==
-    \A v \in versions, k \in KeyS : \A m \in Mutations(v, k) :
-        Known(v, k, m) /\ m.c # "graft" => Accepts(v, k, m)
+C05_Soundness == \A q \in Queries : \A m \in MutationsFor(q) : ~Judge(q, m).unsound
+\* ... honest answers are accepted (including mutations that land on one)
+C05_NoFalseReject == \A q \in Queries : \A m \in MutationsFor(q) : ~Judge(q, m).falseReject
+\* ... and the known forgeries are real in the model of the code as it is (the list is not stale)
+C05_KnownAreAccepted == \A q \in Queries : \A m \in MutationsFor(q) : ~Judge(q, m).stale
+\* the three together, in one pass over the mutations (used by the case-generation runs)
+C05_Verdicts ==
+    \A q \in Queries : \A m \in MutationsFor(q) :
+        LET j == Judge(q, m) IN ~j.unsound /\ ~j.falseReject /\ ~j.stale
 =============================================================================
